@@ -227,7 +227,8 @@ class sumtensor:
                 "Sumtensor only supports collections of tensor, sptensor, ktensor, "
                 f"and ttensor but received: {type(other)}"
             )
-        return ttb.sumtensor(updated_parts, copy=False)
+        # Copy so the sum does not share parts with its operands
+        return ttb.sumtensor(updated_parts, copy=True)
 
     def __radd__(self, other):
         """
